@@ -17,7 +17,7 @@ TECHNIQUE = (
     "(stateless model checking of the implementation), faults replayed with real killed processes"
 )
 RULE = (
-    "faults: (worker w, k results delivered before death, exit code in {-9 SIGKILL, 1 crash}) for every worker and every "
+    "faults: (worker w, k results delivered before death, kind in {SIGKILL at the k-th delivery; exception raised inside the worker body while computing record k / at the sentinel put, handled by the worker's own code}) for every worker and every "
     "0 <= k <= #records of its batch [thorough: also every pair of such faults on two workers]; for each fault all schedules "
     "with <= B deviations (unpruned) plus the complete schedule tree with canonical-state pruning. evaluations = executions; "
     "all are non-trivial (each contains a worker death); distinct = distinct (configuration, fault, choice sequence)."
@@ -65,7 +65,17 @@ def plan(tier, seed):
     return [{"config": c, "i": i} for i, c in enumerate(rc.configs(tier))]
 
 
-def judge(x, nrec):
+def judge(x, nrec, fault):
+    # premise of the property: a worker terminated abnormally. A crash that the worker's own code swallowed
+    # (it exits 0) is not an abnormal termination.
+    abnormal = False
+    for f in fault:
+        if f["w"] < len(x.workers) and x.workers[f["w"]].started:
+            w = x.workers[f["w"]]
+            if f["code"] < 0 or w.natural_code != 0:
+                abnormal = True
+    if not abnormal:
+        return None
     names = rc.out_names(x.output)
     if x.outcome == ("return",):
         missing = [n for n in rc.expected_names(nrec) if n not in names]
@@ -86,10 +96,11 @@ def judge(x, nrec):
 def run_shard(spec, tier, scratch):
     res = fw.ShardResult()
     c = spec["config"]
+    budget = [CAP[tier]]
     for fault in faults_for(c, tier):
         r = c11.explore_config(
-            res, c, scratch, tier, fault=fault, judge_fn=lambda x: judge(x, c["nrec"]), tag="C13",
-            dev_bound=bounds(tier)["deviation_bound_unpruned"],
+            res, c, scratch, tier, fault=fault, judge_fn=lambda x: judge(x, c["nrec"], fault), tag="C13",
+            dev_bound=bounds(tier)["deviation_bound_unpruned"], budget=budget,
         )
         res.count("faults")
         if r is not None:
@@ -132,7 +143,7 @@ def replay(case, scratch):
     x2 = vmp.Exec(cfg, case["schedule"], case.get("fault")).run()
     if (x1.trace, x1.outcome, x1.output) != (x2.trace, x2.outcome, x2.output):
         raise fw.HarnessError("the same schedule gave two different executions")
-    v = judge(x1, c["nrec"])
+    v = judge(x1, c["nrec"], case.get("fault") or [])
     if v is not None:
         err = rc.conform_real(cfg, case["schedule"], case.get("fault"), x1)
         if err is not None:
